@@ -25,6 +25,8 @@ RULE = (
     "of its own synonyms, which is not a clash), constructed in every order "
     "(all permutations up to 4 records, sampled above) through Converter(...) and, re-expressed in each format, through "
     "from_prefix_map / from_priority_prefix_map / from_reverse_prefix_map / from_extended_prefix_map / from_jsonld; every "
+    "third clash-free collection is also constructed, grown by a merging add_prefix, and then its very Record objects "
+    "(and copies of them) are used to construct again together with a record clashing on the acquired synonym; every "
     "25th case is a large valid map (100-400 records with nested URI prefixes), sometimes with one clash hidden in it. The "
     "monitor on Converter.__init__ computes all cross-record clashes independently and demands: no clash <=> success; URI "
     "clash => DuplicateURIPrefixes, else DuplicatePrefixes; the reported strings are exactly the clashing ones and each "
@@ -127,6 +129,30 @@ def run_case(ctx, g, rng):
     call(api.Converter.from_jsonld, {"@context": ctxd})
     dup_u = len(set(pm.values())) < len(pm)
     probe.note_key(f"loaders:dupuri{int(dup_u)}:{kinds}", dup_u or nontrivial)
+    # Record objects with a past: scanned once, then grown by a merge, then used to construct again
+    if g % 3 == 1 and len(recs) >= 2 and not cl:
+        objs = [gen.mk_record(api, r) for r in recs]
+        o = call(api.Converter, objs)
+        if o[0] == "ret":
+            c0 = o[1]
+            i = rng.randrange(len(recs))
+            side = rng.choice(["curie", "uri"])
+            newp, newu = f"grown{g % 7}", f"http://grown/{g % 7}/"
+            if side == "curie":
+                call(c0.add_prefix, recs[i].prefix, recs[i].uri_prefix, [newp], merge=True)
+                clash = api.Record(prefix=f"late{g % 5}", uri_prefix="http://late/", prefix_synonyms=[newp] if rng.random() < 0.5 else [])
+                if not clash.prefix_synonyms:
+                    clash = api.Record(prefix=newp, uri_prefix="http://late/")
+            else:
+                call(c0.add_prefix, recs[i].prefix, recs[i].uri_prefix, None, [newu], merge=True)
+                clash = api.Record(prefix=f"late{g % 5}", uri_prefix=newu) if rng.random() < 0.5 else api.Record(prefix=f"late{g % 5}", uri_prefix="http://late/", uri_prefix_synonyms=[newu])
+            grown = list(c0.records)  # the very objects that were scanned before and merged into since
+            for batch in ([*grown, clash], [clash, *grown], [r.model_copy(deep=True) for r in grown] + [clash], [r.model_copy() for r in grown] + [clash]):
+                call(api.Converter, batch)
+            call(api.Converter.from_extended_prefix_map, [*grown, clash])
+            call(api.Converter, grown)
+            S.counters["wl:record-objects-with-a-past"] += 1
+            probe.note_key(f"history:{side}:n{len(recs)}", True)
     # a record may never list its own canonical value among its synonyms
     r = rng.choice(recs)
     for kw in (
